@@ -93,11 +93,13 @@ def accepted(tag, schema):
 
 
 def crash_site(exc):
-    """innermost function of the library in the traceback"""
+    """innermost function of the library in the traceback, and — when the exception was raised
+    below it, in the standard library — `@` the function that raised (two different failures under
+    one library function are two different findings)"""
     tb = traceback.extract_tb(exc.__traceback__)
-    for fr in reversed(tb):
+    for n, fr in enumerate(reversed(tb)):
         if os.sep + "jsonschema" + os.sep in fr.filename and "tests" not in fr.filename:
-            return fr.name
+            return fr.name if n == 0 else "%s@%s" % (fr.name, tb[-1].name)
     return "?"
 
 
@@ -177,17 +179,31 @@ def c01(ctx):
     res.distribution["suite-cases"] = n_suite
     if bad:
         raise RuntimeError("Spec.valid disagrees with the official test suite on %d cases, e.g. %r" % (len(bad), bad[:3]))
-    # (ii) generated reference-free schemas
-    for _ in range(ctx.n(3000)):
-        tag, schema, store, wdocs, info = gen_case(ctx, refs=False, depth=ctx.r.choice([1, 2, 2, 3]))
+    # (ii) generated reference-free schemas, after a few directed ones (several values of one Python
+    #      class but different JSON types or integrality inside ONE validation)
+    directed = []
+    for tags, schema, insts in C07_DIRECTED:
+        for tag in tags:
+            directed.append((tag, schema))
+            directed.append((tag, {"items": schema}))
+            directed.append((tag, {"additionalProperties": schema}))
+    for _ in range(ctx.n(3000) + len(directed)):
+        if directed:
+            tag, schema = directed.pop()
+        else:
+            tag, schema, store, wdocs, info = gen_case(ctx, refs=False, depth=ctx.r.choice([1, 2, 2, 3]))
         cls = impl.DRAFTS[tag]
         try:
             if not accepted(tag, schema):
                 continue
         except Exception:        # noqa: BLE001
             continue
-        for _k in range(3):
-            inst = ctx.g.instance_for(tag, schema)
+        insts = [ctx.g.instance_for(tag, schema) for _k in range(3)]
+        # one more: an earlier instance with one number re-typed (3.0 <-> 3.5, 1 <-> true <-> 1.0), or
+        # several of them side by side in one array, so that one validation meets both
+        x = ctx.g.retype(ctx.r.choice(insts))
+        insts.append(x if ctx.r.random() < 0.5 else [ctx.r.choice(insts), x, ctx.g.retype(x)])
+        for inst in insts:
             case = {"cls": tag, "schema": schema, "inst": inst, "budget": 1}
             sp = ctx.drv.run("SPEC", {"d": tag, "schema": schema, "inst": inst}, orc)
             if not sp["shaped"]:
@@ -229,6 +245,18 @@ C03_CORPUS = [
     ("d7", {"$id": "http://["}, 1),
     ("d4", {"id": "http://["}, 1),
     ("d7", {"properties": {"a": {"$ref": "http://["}}}, {"a": 1}),
+    # URIs that urlsplit accepts but whose parts are unusable (bad ports, odd hosts): unresolvable, hence RefResolutionError
+    ("d7", {"properties": {"a": {"$ref": "http://localhost:abc/s.json#/definitions/a"}}}, {"a": 1}),
+    ("d4", {"id": "http://localhost:abc/root.json", "properties": {"a": {"$ref": "other.json"}}}, {"a": 1}),
+    ("d6", {"$id": "http://h:99999999/x", "items": {"$ref": "#/definitions/q"}, "definitions": {"q": {"type": "integer"}}}, [1, "s"]),
+    ("d3", {"properties": {"a": {"$ref": "http://h:-1/s"}}}, {"a": 1}),
+    ("d7", {"properties": {"a": {"$ref": "HTTP://EXAMPLE.com:80/s.json"}}}, {"a": 1}),
+    ("d7", {"properties": {"a": {"$ref": "http://ex ample.com/s.json"}}}, {"a": 1}),
+    ("d7", {"properties": {"a": {"$ref": "//:0"}}}, {"a": 1}),
+    ("d7", {"properties": {"a": {"$ref": "http://h:1:2/s"}}}, {"a": 1}),
+    ("d7", {"properties": {"a": {"$ref": "urn:x:y#/a"}}}, {"a": 1}),
+    ("d7", {"properties": {"a": {"$ref": "mailto:a@b"}}}, {"a": 1}),
+    ("d7", {"properties": {"a": {"$ref": "http://\u00e9.example/s"}}}, {"a": 1}),
     ("d7", {"minLength": 2.0}, "a"),
     ("d6", {"maxItems": 0.0}, [1]),
     ("d7", {"enum": []}, 1),
@@ -761,6 +789,18 @@ def c06(ctx):
             for top in errs:
                 for e in [top] + closure_keys(top):
                     bad = located_failure(cls, tag, schema, inst, e, case["resolver"], wdocs)
+                    if not bad:
+                        # reading an error (rendering it, asking for its paths) does not move it
+                        before = impl.err_json(e)
+                        try:
+                            str(e), repr(e), e.json_path, list(e.absolute_path), list(e.absolute_schema_path), str(top)
+                        except Exception as exc:        # noqa: BLE001
+                            bad = "rendering-raises:" + type(exc).__name__
+                        if not bad and corr.diff(before, impl.err_json(e)):
+                            bad = "changed-by-rendering"
+                        if not bad:
+                            bad = located_failure(cls, tag, schema, inst, e, case["resolver"], wdocs)
+                            bad = bad and "after-rendering:" + bad
                     n_checked += 1
                     if bad:
                         res.fail("location:%s:%s" % (bad, e.validator), "error of keyword %r: %s" % (e.validator, bad), case,
@@ -954,6 +994,83 @@ def c07(ctx):
                 res.disagree("HIST", case, None, None, d)
 
 
+C07_DIRECTED = [
+    # (drafts, schema, instances): what a cache keyed by the instance's class, hash or `==` confuses
+    (("d6", "d7"), {"type": "integer"}, [3.0, 3.5, 4.0, 2.5, 7, 7.0, 7.25, True, 1]),
+    (("d3", "d4", "d6", "d7"), {"properties": {"count": {"type": "integer"}, "ratio": {"type": "number"}}},
+     [{"count": 3.0, "ratio": 0.5}, {"count": 3.5}, {"count": 2.5}, {"count": 4.0}, {"count": True}, {"count": 1}]),
+    (("d6", "d7"), {"items": {"type": "integer"}}, [[1.0, 1.5], [1.5, 1.0], [2.0], [2.5], [True], [1]]),
+    (("d6", "d7"), {"const": 1}, [1, True, 1.0, True, 1]),
+    (("d3", "d4", "d6", "d7"), {"enum": [0, "a"]}, [0, False, 0.0, False, 0]),
+    (("d3", "d4", "d6", "d7"), {"enum": [True]}, [True, 1, 1.0, True]),
+    (("d3", "d4", "d6", "d7"), {"type": "boolean"}, [True, 1, False, 0, 1.0]),
+    (("d3", "d4", "d6", "d7"), {"type": ["number", "null"]}, [1, True, None, 1.0, False]),
+    (("d3", "d4", "d6", "d7"), {"uniqueItems": True}, [[1, True], [1, 1.0], [0, False], [[1], [True]], [[1], [1.0]]]),
+    (("d4", "d6", "d7"), {"not": {"type": "integer"}}, [2.5, 2.0, "s", 2, True]),
+]
+
+
+def c07_twins(ctx):
+    """one validator object asked about instances that a cache keyed by class, hash or `==` would
+    confuse (3.0/3.5, 1/True/1.0, 0/False/0.0), in both orders and through every entry point;
+    every answer is compared with a fresh validator's (reference-free schemas)"""
+    res = ctx.res
+    r = ctx.r
+
+    def answers(v, inst, how):
+        try:
+            if how == "isValid":
+                return ["ok", v.is_valid(inst)]
+            if how == "exhaust":
+                return ["errs", multiset([impl.err_json(e) for e in v.iter_errors(inst)])]
+            v.validate(inst)
+            return ["ok", None]
+        except E.ValidationError as e:
+            return ["ValidationError", err_key(impl.err_json(e))]
+        except Exception as exc:        # noqa: BLE001
+            return ["raised", type(exc).__name__]
+
+    def run(tag, schema, insts, label):
+        cls = impl.DRAFTS[tag]
+        used = cls(schema)
+        hows = [r.choice(["isValid", "isValid", "exhaust", "validate"]) for _ in insts]
+        for n, (inst, how) in enumerate(zip(insts, hows)):
+            got = answers(used, inst, how)
+            want = answers(cls(copy.deepcopy(schema)), copy.deepcopy(inst), how)
+            if got != want:
+                res.fail("history-dependent:twin:" + how,
+                         "%s on %r after %r on the same validator differs from a fresh validator (%s)" % (how, inst, insts[:n], label),
+                         {"cls": tag, "schema": schema, "insts": insts, "hows": hows, "at": n})
+                return
+        res.note(khash(["c07twins", tag, schema, insts]), True, None)
+
+    for tags, schema, insts in C07_DIRECTED:
+        for tag in tags:
+            for _ in range(3):
+                seq = list(insts)
+                r.shuffle(seq)
+                run(tag, schema, seq + seq[:2], "directed")
+            run(tag, schema, list(insts), "directed")
+    for _ in range(ctx.n(250)):
+        tag, schema, store, wdocs, info = gen_case(ctx, refs=False, depth=r.choice([1, 2]))
+        try:
+            if not accepted(tag, schema):
+                continue
+        except Exception:        # noqa: BLE001
+            continue
+        i0 = ctx.g.instance_for(tag, schema)
+        seq = [i0]
+        for _k in range(r.randrange(2, 6)):
+            seq.append(ctx.g.retype(r.choice(seq)) if r.random() < 0.8 else ctx.g.twist(r.choice(seq)))
+        seq.append(copy.deepcopy(i0))
+        run(tag, schema, seq, "generated")
+
+
+def c07_all(ctx):
+    c07_twins(ctx)
+    c07(ctx)
+
+
 # ---------------------------------------------------------------------------------------------
 # C08 equality
 
@@ -999,6 +1116,22 @@ def c08(ctx):
             if cls({"enum": enum_many}).is_valid(a) != want:
                 res.fail("equality:enum-many:" + tag, "enum %r on %r" % (enum_many, a), case)
         res.distribution["equal" if m["jsonEq"] else "different"] += 1
+        # the same on ONE validator object asked repeatedly (values that Python's hash and `==`
+        # identify: 1/True/1.0, 0/False/0.0): every answer is JSON equality with b, whatever was asked before
+        if _ % 4 == 0:
+            tag = ctx.r.choice(DRAFT_TAGS)
+            cls = impl.DRAFTS[tag]
+            kw = "const" if tag in ("d6", "d7") and ctx.r.random() < 0.5 else "enum"
+            v = cls({kw: b if kw == "const" else [b]})
+            seq = [a, ctx.g.retype(a), b, ctx.g.retype(b), a]
+            ctx.r.shuffle(seq)
+            for n, x in enumerate(seq):
+                got = v.is_valid(x)
+                if got != ctx_eq(ctx, x, b):
+                    res.fail("equality:%s-reused-validator:%s" % (kw, tag),
+                             "%s %r on %r after %r on the same validator: %r" % (kw, b, x, seq[:n], got),
+                             {"cls": tag, "kw": kw, "b": b, "seq": seq, "at": n})
+                    break
 
 
 def ctx_eq(ctx, a, b):
@@ -1038,6 +1171,12 @@ def c09(ctx):
             else:
                 checks += [({"minimum": d}, fd <= fi), ({"maximum": d}, fi <= fd),
                            ({"exclusiveMinimum": d}, fd < fi), ({"exclusiveMaximum": d}, fi < fd)]
+                # since draft 6 the four bounds are independent keywords: side by side each decides alone
+                d2 = gen.finite(tweak_num(ctx, d)) if ctx.r.random() < 0.5 else gen.finite(num_for(ctx))
+                f2 = Fraction(d2)
+                checks += [({"maximum": d, "exclusiveMaximum": d2}, fi <= fd and fi < f2),
+                           ({"minimum": d, "exclusiveMinimum": d2}, fd <= fi and f2 < fi),
+                           ({"exclusiveMaximum": d, "minimum": d2, "maximum": d}, fi < fd and f2 <= fi)]
             for schema, want in checks:
                 try:
                     got = cls(schema).is_valid(i)
@@ -1150,7 +1289,7 @@ def insert_foreign(ctx, tag, schema):
             spots.append(c[k])
     if not spots:
         return None
-    names = gen.ANNOTATIONS + gen.FOREIGN[tag] + ["x-unknown", "$vocabulary", "nullable", "discriminator", "ünknown", ""]
+    names = gen.ANNOTATIONS + gen.FOREIGN[tag] + gen.LATER + ["x-unknown", "nullable", "discriminator", "ünknown", ""]
     consulted = {"properties", "patternProperties", "items", "then", "else", "exclusiveMinimum", "exclusiveMaximum",
                  "required", "$ref", "id", "$id", "$schema"}
     n = 0
@@ -1160,6 +1299,17 @@ def insert_foreign(ctx, tag, schema):
         spot = ctx.r.choice(spots)
         name = ctx.r.choice(names)
         k = ctx.r.random()
+        if ctx.r.random() < 0.3:
+            # a later specification's keyword right next to the keyword it modifies there, with a telling value
+            name = ctx.r.choice(sorted(gen.LATER_PARTNER))
+            partner, vals = gen.LATER_PARTNER[name]
+            near = [sp for sp in spots if partner in sp and "$ref" not in sp]
+            if near and name not in gen.VOCAB[tag]:
+                spot = ctx.r.choice(near)
+                if name not in spot:
+                    spot[name] = copy.deepcopy(ctx.r.choice(vals))
+                    n += 1
+                continue
         if "$ref" in spot and k < 0.3:
             # ANY keyword next to a reference is ignored: real keywords of the draft with values the instance fails
             for kw, val in ctx.r.sample([("type", "null"), ("enum", []), ("minimum", 10 ** 9), ("maxItems", 0), ("maxLength", 0),
@@ -1515,6 +1665,28 @@ def c15(ctx):
     import urllib.request
     for _ in range(ctx.n(600)):
         tag, schema, store, wdocs, info = gen_case(ctx, refs=True, depth=ctx.r.choice([1, 2]))
+        sib_ops = None
+        if ctx.r.random() < 0.2:
+            # sibling documents: the SAME pointer leads to different content in each of 2-6 retrievable
+            # documents (short-lived objects when caching is off: a fresh object per retrieval)
+            kinds = ["integer", "string", "boolean", "array", "object", "null"]
+            ctx.r.shuffle(kinds)
+            n = ctx.r.randrange(2, 7)
+            ptr = ctx.r.choice(["/definitions/item", "/defs/a", "/x/0", "/a~1b"])
+            toks = [t.replace("~1", "/").replace("~0", "~") for t in ptr.split("/")[1:]]
+            wdocs, store = {}, {}
+            for k in range(n):
+                doc = {"type": kinds[k]}
+                for t in reversed(toks):
+                    doc = [doc] if t == "0" else {t: doc, "title": "doc %d" % k}
+                wdocs["http://ex.org/sib%d.json" % k] = doc
+            schema = {"properties": dict(("p%d" % k, {"$ref": "http://ex.org/sib%d.json#%s" % (k, ptr)}) for k in range(n))}
+            vals = {"integer": 1, "string": "s", "boolean": True, "array": [], "object": {}, "null": None}
+            sib_ops = []
+            for _k in range(ctx.r.randrange(2, 6)):
+                inst = dict(("p%d" % k, vals[ctx.r.choice(kinds[:n] + [kinds[k]] * 2)]) for k in range(n) if ctx.r.random() < 0.8)
+                sib_ops.append([ctx.r.choice(["isValid", "exhaust", "exhaust", "validate"]), inst])
+            info = {"kinds": ["siblings"]}
         cls = impl.DRAFTS[tag]
         # several references into the same external documents through distinct fragments / spellings
         urls = list(wdocs)
@@ -1527,7 +1699,7 @@ def c15(ctx):
             key = "allOf" if tag != "d3" else "extends"
             if isinstance(schema[key], list):
                 schema[key] = list(schema[key]) + extra
-        ops = ctx.g.hist_ops(tag, schema, ctx.r.randrange(2, 7))
+        ops = sib_ops or ctx.g.hist_ops(tag, schema, ctx.r.randrange(2, 7))
         fail_at = set(x for x in range(6) if ctx.r.random() < 0.15)
         # the caller's store keys in spellings that normalise to the same key (trailing '#', empty query)
         if store and ctx.r.random() < 0.5:
@@ -1633,17 +1805,38 @@ def id_of_err(e):
     return _ERR_IDS.setdefault(id(e), len(_ERR_IDS))
 
 
+_INT = {"type": "integer"}
+C17_CORPUS = [
+    # property names that any textual rendering of a path (dotted, bracketed, JSON-path, pointer) confuses with nesting
+    ({"properties": {"a.b": _INT, "a": {"properties": {"b": _INT}}}}, {"a.b": "x", "a": {"b": "y"}}),
+    ({"properties": {"rows[0]": _INT, "rows": {"items": _INT}}}, {"rows[0]": "x", "rows": ["y"]}),
+    ({"properties": {"a": {"items": _INT}, "a[0]": _INT, "a/0": _INT, "a.0": _INT}}, {"a": ["s"], "a[0]": "s", "a/0": "s", "a.0": "s"}),
+    ({"properties": {"": {"properties": {"": _INT}}, ".": _INT}}, {"": {"": "x"}, ".": "y"}),
+    ({"properties": {"x": {"items": _INT}, "y": {"properties": {"0": _INT}}, "x[0]": _INT}}, {"x": ["s"], "y": {"0": "s"}, "x[0]": "s"}),
+    ({"properties": {"a": {"properties": {"b": {"properties": {"c": _INT}}, "b.c": _INT}}, "a.b": {"properties": {"c": _INT}}, "a.b.c": _INT}},
+     {"a": {"b": {"c": "s"}, "b.c": "s"}, "a.b": {"c": "s"}, "a.b.c": "s"}),
+    ({"properties": {"'a'": _INT, "a": _INT, "\"a\"": _INT, "['a']": _INT}}, {"'a'": "s", "a": "s", "\"a\"": "s", "['a']": "s"}),
+    ({"items": {"properties": {"0": _INT}}, "minItems": 5}, [{"0": "s"}, {"0": 1}, {"0": "t"}]),
+    ({"properties": {"n": {"type": "null"}, "k": _INT}, "required": ["zz"], "minProperties": 9}, {"n": None, "k": "s", "e": None, "f": 0, "g": "", "h": [], "i": False}),
+]
+
+
 def c17(ctx):
     res = ctx.res
-    for _ in range(ctx.n(4000)):
-        tag, schema, store, wdocs, info = gen_case(ctx, refs=False, depth=ctx.r.choice([2, 3]))
+    corpus = [(t, s, i) for (s, i) in C17_CORPUS for t in DRAFT_TAGS]
+    for _ in range(ctx.n(4000) + len(corpus)):
+        if corpus:
+            tag, schema, inst0 = corpus.pop()
+        else:
+            inst0 = None
+            tag, schema, store, wdocs, info = gen_case(ctx, refs=False, depth=ctx.r.choice([2, 3]))
         cls = impl.DRAFTS[tag]
         try:
             if not accepted(tag, schema):
                 continue
         except Exception:        # noqa: BLE001
             continue
-        inst = ctx.g.instance_for(tag, schema)
+        inst = ctx.g.instance_for(tag, schema) if inst0 is None else inst0
         errs, stop = impl.consume(cls(schema).iter_errors(inst), None)
         if not errs:
             continue
@@ -1920,6 +2113,58 @@ def c20_registrations(ctx):
             V.meta_schemas.store.update(saved_m)
 
 
+def c20_explicit(ctx):
+    """an explicitly given class always wins: for classes of the caller's own (not registered; their
+    metaschema names, under `$schema`, another draft or nothing anybody knows), validate(cls=C)
+    checks the schema with C itself — C's keywords and C's type checker reading C's metaschema — and
+    then validates with C; no `$schema` lookup happens (no warning)"""
+    res = ctx.res
+    r = ctx.r
+    probes = [({"maxLength": 2.0}, "abc"), ({"maxLength": 2}, "abc"), ({"maxLength": 2}, "a"), ({"minimum": True}, 0),
+              ({"required": ("a",)}, {}), ({"maxLength": 2.5}, "a"), ({"type": "integer"}, 3.0), ({}, 1), ({"minimum": "3"}, 4)]
+    for n in range(ctx.n(40)):
+        saved_v = dict(V.validators)
+        saved_m = dict(V.meta_schemas.store)
+        try:
+            base = impl.DRAFTS[r.choice(DRAFT_TAGS)]
+            other = impl.DRAFTS[r.choice(DRAFT_TAGS)]
+            named = r.choice([other.ID_OF(other.META_SCHEMA), "http://example.com/nobody/knows/%d" % n, None,
+                              other.ID_OF(other.META_SCHEMA).rstrip("#")])
+            meta = {"properties": {"maxLength": {"type": "integer"}, "minimum": {"type": "number"}, "required": {"type": "array"}}}
+            if named is not None:
+                meta["$schema"] = named
+            C = V.create(meta_schema=meta, validators=dict(base.VALIDATORS), type_checker=base.TYPE_CHECKER)
+            for schema, inst in probes:
+                case = {"base": base.__name__, "meta_schema": meta, "schema": schema, "inst": inst}
+                res.note(khash(["c20explicit", case]), True, None)
+                try:
+                    first = next(C(C.META_SCHEMA).iter_errors(schema), None)
+                    want = "schema-error" if first is not None else ("valid" if next(C(schema).iter_errors(inst), None) is None else "invalid")
+                except Exception as exc:        # noqa: BLE001
+                    want = "raised:" + type(exc).__name__
+                with warnings.catch_warnings(record=True) as w:
+                    warnings.simplefilter("always")
+                    try:
+                        V.validate(inst, schema, cls=C)
+                        got = "valid"
+                    except E.SchemaError:
+                        got = "schema-error"
+                    except E.ValidationError:
+                        got = "invalid"
+                    except Exception as exc:        # noqa: BLE001
+                        got = "raised:" + type(exc).__name__
+                    warned = any("metaschema" in str(x.message) for x in w)
+                if got != want:
+                    res.fail("explicit-class:not-decisive", "validate(cls=C) gave %s; C itself (its keywords and type checker on its metaschema) says %s" % (got, want), case)
+                elif warned:
+                    res.fail("explicit-class:$schema-looked-up", "validate(cls=C) looked up a $schema although the class was given", case)
+        finally:
+            V.validators.clear()
+            V.validators.update(saved_v)
+            V.meta_schemas.store.clear()
+            V.meta_schemas.store.update(saved_m)
+
+
 # ---------------------------------------------------------------------------------------------
 
 PLANS = {}
@@ -1945,7 +2190,7 @@ plan("C05", c05, assumptions=A_COMMON,
      rule="accepted reference-free schema objects x 2 schema-directed instances; the whole schema's errors compared as a multiset with the union over its keywords (each with the siblings it consults); non-trivial = at least one error and at least two keywords")
 plan("C06", c06, assumptions=A_COMMON,
      rule="accepted schemas (30% with references) x schema-directed instances; every error in the transitive context closure is navigated in instance and schema; non-trivial = at least two errors navigated")
-plan("C07", c07, assumptions=A_COMMON + ["A-gc", "A-handlers: a handler returns one fixed document per URI whenever it succeeds"],
+plan("C07", c07_all, assumptions=A_COMMON + ["A-gc", "A-handlers: a handler returns one fixed document per URI whenever it succeeds"],
      rule="schemas with local/remote/relative/recursive/unresolvable references x histories of 2-8 (thorough: 2-30) operations (is_valid, exhaust, validate, take k + close, take k + drop, direct resolve) x handlers failing at random attempts; non-trivial = at least two operations")
 plan("C08", c08, assumptions=A_COMMON,
      rule="pairs (value, copy with one twist: true<->1, false<->0, 1<->1.0, reordered keys, swapped elements, changed leaf) at depth 0-3 and arrays with near-duplicates; non-trivial = the two values differ textually")
@@ -1964,6 +2209,7 @@ plan("C17", c17, assumptions=A_COMMON,
 def c20_all(ctx):
     c20(ctx)
     c20_registrations(ctx)
+    c20_explicit(ctx)
 
 
 plan("C20", c20_all, assumptions=A_COMMON + ["A-url: urlsplit(u).geturl() as oracle"],
@@ -1977,7 +2223,7 @@ import chan_der     # noqa: E402
 import chan_ref     # noqa: E402
 
 plan("C02", chan_ref.campaign, **chan_ref.PLAN)
-plan("C12", chan_fmt.c12, **chan_fmt.PLAN12)
+plan("C12", chan_fmt.c12_all, **chan_fmt.PLAN12)
 plan("C13", chan_fmt.c13, **chan_fmt.PLAN13)
 plan("C16", chan_der.campaign, **chan_der.PLAN)
 plan("C18", chan_sys.campaign, **chan_sys.PLAN)
